@@ -217,8 +217,17 @@ def check_spec(case):
     tag = 'x=%s mask_freqs=%r mode=%s amp=%s step=%g nphases=%d max_imfs=%d options=%r' % (
         x.tolist() if N <= 12 else 'F_B%r' % (case[2],), source, mode, ampkind, step, nph, cap, opts)
     viols = []
+    kw = impl_kwargs(source, mode, ampkind, step, nph, cap, opts)
+    kw_before = impl_kwargs(source, mode, ampkind, step, nph, cap, opts)
     try:
-        got, gfreq = _orig['mask_sift'](x.copy(), **impl_kwargs(source, mode, ampkind, step, nph, cap, opts))
+        got, gfreq = _orig['mask_sift'](x.copy(), **kw)
+        # the same argument objects a second time: nothing handed in may have been changed by the first call
+        got2, gfreq2 = _orig['mask_sift'](x.copy(), **kw)
+        for k_ in ('mask_amp', 'mask_freqs'):
+            if isinstance(kw_before[k_], np.ndarray) and not np.array_equal(kw[k_], kw_before[k_]):
+                viols.append(('spec:argument-modified', '%s: the %s array passed in was changed by the call' % (tag, k_)))
+        if np.asarray(got2).shape != np.asarray(got).shape or not np.array_equal(np.asarray(got2), np.asarray(got)):
+            viols.append(('spec:not-repeatable', '%s: a second identical call with the same argument objects gives another result' % tag))
     except EMDSiftCovergeError:
         return Outcome(cls='spec-skipped', nontrivial=False)
     except Exception as e:
